@@ -572,7 +572,84 @@ fn many_part(quick: bool) -> crate::run::PartResult {
     r
 }
 
+/// "For any number of users": a roster larger than one NAMES line (the server lists 20 names
+/// per 353). n members, optionally one of them invisible; a member and an outsider ask
+/// NAMES and WHO: the member sees everybody, the outsider everybody who is not invisible -
+/// in both views, whatever n is relative to the chunk size.
+pub fn roster_case(n: usize, invisible: Option<usize>) -> Vec<Finding> {
+    let mut out = vec![];
+    let mut w = World::new(Cfg::default().main_config(), n + 1);
+    macro_rules! m {
+        ($e:expr) => {
+            match $e {
+                Ok(v) => v,
+                Err(e) => return vec![finding("machinery", e.0)],
+            }
+        };
+    }
+    let nicks: Vec<String> = (0..n).map(|i| format!("m{}", i)).collect();
+    for (i, nk) in nicks.iter().enumerate() {
+        m!(w.register(i, nk, "mu"));
+        m!(w.send(i, "JOIN #crowd"));
+    }
+    m!(w.register(n, "watcher", "wu"));
+    if let Some(k) = invisible {
+        m!(w.send(k, &format!("MODE {} +i", nicks[k])));
+    }
+    w.take_all();
+    let all: BTreeSet<String> = nicks.iter().cloned().collect();
+    let visible: BTreeSet<String> = nicks.iter().enumerate().filter(|(i, _)| Some(*i) != invisible).map(|(_, x)| x.clone()).collect();
+    for (who, slot, want) in [("a member", n - 1, &all), ("an outsider", n, &visible)] {
+        let names: BTreeSet<String> = m!(names_view(&mut w, slot, "#crowd")).keys().cloned().collect();
+        let who_l: BTreeSet<String> = m!(who_view(&mut w, slot, "#crowd")).keys().cloned().collect();
+        if &names != want {
+            out.push(finding("roster:names", format!("{} members{}: NAMES #crowd asked by {} lists {} names; missing {:?}, surplus {:?}", n, if invisible.is_some() { " (one +i)" } else { "" }, who, names.len(), want.difference(&names).take(4).collect::<Vec<_>>(), names.difference(want).take(4).collect::<Vec<_>>())));
+        }
+        if &who_l != want {
+            out.push(finding("roster:who", format!("{} members{}: WHO #crowd asked by {} lists {} users; missing {:?}, surplus {:?}", n, if invisible.is_some() { " (one +i)" } else { "" }, who, who_l.len(), want.difference(&who_l).take(4).collect::<Vec<_>>(), who_l.difference(want).take(4).collect::<Vec<_>>())));
+        }
+    }
+    for (i, c) in w.conns.iter().enumerate() {
+        if let Life::Panicked(msg) = &c.life {
+            out.push(finding("roster:panic", format!("connection {} aborted: {}", i, msg)));
+        }
+    }
+    out
+}
+
+fn roster_part(quick: bool) -> crate::run::PartResult {
+    let t0 = std::time::Instant::now();
+    let name = "fun:c04-large-roster";
+    let mut r = crate::run::PartResult::new(name, "E-FUN");
+    let sizes: Vec<usize> = if quick { vec![2, 19, 20, 21, 40, 41] } else { (1..=62).collect() };
+    for n in sizes {
+        let mut invs = vec![None, Some(0), Some(n - 1)];
+        if n > 8 {
+            invs.push(Some(7));
+        }
+        invs.dedup();
+        for inv in invs {
+            r.evaluations += 1;
+            for f in roster_case(n, inv) {
+                r.violations.push(crate::bfs::Violation { scenario: name.into(), sig: f.sig, detail: f.detail, history: vec![], transcript: vec![serde_json::json!({"n": n, "invisible": inv}).to_string()] });
+            }
+        }
+    }
+    r.violations.truncate(40);
+    r.states = r.evaluations;
+    r.transitions = r.evaluations * 4;
+    r.distinct = r.evaluations;
+    r.traces = r.evaluations;
+    r.exhaustive = true;
+    r.samples = vec![serde_json::json!({"n": 20, "invisible": 7, "meaning": "20 members of #crowd, m7 is +i; NAMES and WHO asked by m19 and by an outsider"})];
+    r.wall_s = t0.elapsed().as_secs_f64();
+    r
+}
+
 pub fn replay_fun(scenario: &str, input: &serde_json::Value) -> Vec<Finding> {
+    if scenario == "fun:c04-large-roster" {
+        return roster_case(input["n"].as_u64().unwrap_or(20) as usize, input["invisible"].as_u64().map(|x| x as usize));
+    }
     if scenario == "fun:c04-long-names" {
         return long_names_case(input["chan_len"].as_u64().unwrap_or(996) as usize, input["chans"].as_u64().unwrap_or(3) as usize, input["nick_len"].as_u64().unwrap_or(200) as usize);
     }
@@ -586,6 +663,7 @@ pub fn plan(quick: bool) -> Plan {
     let mut parts = vec![];
     parts.push(Part::Custom("fun:c04-many-announcements".into(), Box::new(move || many_part(quick))));
     parts.push(Part::Custom("fun:c04-long-names".into(), Box::new(move || long_names_part(quick))));
+    parts.push(Part::Custom("fun:c04-large-roster".into(), Box::new(move || roster_part(quick))));
     parts.push(Part::Bfs(Box::new(ghost(!quick)), lim(if quick { 6 } else { 8 }, 2_000_000, if quick { 20.0 } else { 600.0 })));
     parts.push(Part::Bfs(Box::new(secret(!quick)), lim(if quick { 4 } else { 6 }, 2_000_000, if quick { 20.0 } else { 600.0 })));
     parts.push(Part::Bfs(Box::new(quota()), lim(if quick { 4 } else { 6 }, 2_000_000, if quick { 20.0 } else { 600.0 })));
